@@ -69,4 +69,34 @@ PROPS["C05"] = {
             "distinct = distinct Coq case terms.",
     "assumptions": ["time.Local is reassigned inside the harness process to switch zones"],
 }
+API_TRUST = ["model of the 32 operations, sendto/broadcast and the routing closure (Model/Ops.v), tied by the hooked-driver correspondence run",
+             "the hook uhppote.NewWithDriver (build tag verif) substitutes a recording, scripted driver for ut0311; the real socket driver is exercised by the net engine (C03, C06, C08-C11)"]
+
+PROPS["C01"] = {
+    "engine": "api", "properties_file": "Properties/C01.v", "model_files": ["Model/WireTypes.v", "Model/Codec.v", "Model/Interp.v", "Model/Ops.v", "Model/CasesApi.v", "Spec/Protocol.v", "Spec/ApiSpec.v", "Gen/Layouts.v"], "env": {"TZ": "UTC"},
+    "gen_obligations": ["Proofs/ApiProofs.v:proto_match (generated request layouts = flat protocol description, per operation)", "Proofs/ApiProofs.v:proto_wf"],
+    "technique": "Coq: generated request layouts proved equal to a flat protocol description; generic codec image theorem; differential run through a recording driver incl. call histories",
+    "level_text": "For all 32 operations and all in-domain argument values: the request struct the operation fills (GENERATED layout, fields by name) is field for field the flat protocol description (proto_match, re-proved against the regenerated layouts every run), hence by the generic C18 image theorem the bytes handed to the driver are exactly proto_request (0x17, function code, serial LE at 4, arguments at their offsets, zero elsewhere); exactly one driver call; sequences of calls send the concatenation of what each call alone sends. The model is compared with the implementation through a recording driver on generated calls and on histories on one client and on two clients used alternately.",
+    "level_note": "Trusted: Coq kernel; translator; Model/Ops.v's transcription of uhppote/*.go (checked by the correspondence run: returned values and recorded driver calls must equal the model's); SetTime is modelled on the civil fields of the argument in its own location. History-independence is a theorem of the (stateless) model; that the implementation is stateless too is what the history streams test.",
+    "rule": "every operation x rounds with generated ids/arguments/configurations and a valid (1 in 10: mutated) reply; GetDevices with 0-3 replies; histories of 6-15 calls on one client and two clients alternately. Non-trivial = controller id != 0; distinct = distinct Coq case terms.",
+    "trusted_base": API_TRUST,
+}
+PROPS["C06"] = {
+    "engine": "api", "properties_file": "Properties/C06.v", "model_files": ["Model/WireTypes.v", "Model/Codec.v", "Model/Interp.v", "Model/Ops.v", "Model/CasesApi.v", "Spec/Protocol.v", "Spec/ApiSpec.v", "Gen/Layouts.v"], "env": {"TZ": "UTC"},
+    "technique": "Coq: routing closure proved equal to the specification's routing function for all configurations; differential run through a recording driver over generated configurations",
+    "level_text": "For every client configuration (any list of controllers with later duplicates winning, any protocol string, valid / 0.0.0.0 / port-0 / absent addresses, broadcast address set or not) and every operation the endpoint and transport chosen by sendto equal spec_route; exactly one driver call per accepted call, none for a rejected one; discovery broadcasts. Tied by the recording driver over generated configurations (0-4 controllers, duplicates, 7 protocol strings, 5 address classes, 4 broadcast ports).",
+    "level_note": "Trusted: as C01. Partial: that the ut0311 driver performs exactly one write from the configured bind address and that no other endpoint hears it is observed by the net engine on loopback sockets, not proved.",
+    "rule": "as C01 with a generated configuration for every call. Non-trivial = id != 0.",
+    "trusted_base": API_TRUST,
+}
+PROPS["C07"] = {
+    "engine": "api", "properties_file": "Properties/C07.v", "model_files": ["Model/WireTypes.v", "Model/Codec.v", "Model/Interp.v", "Model/Ops.v", "Model/CasesApi.v", "Spec/Protocol.v", "Spec/ApiSpec.v", "Gen/Layouts.v"], "env": {"TZ": "UTC"},
+    "technique": "Coq: guards of all operations proved equivalent to the property's validity predicate (digit-string Wiegand-26 test = arithmetic rule for all card numbers); differential run on boundary pools",
+    "level_text": "accepted o = valid_args o for all 32 operations and all argument tuples - including, by induction over the decimal digit strings, that the code's Sprintf/Atoi Wiegand-26 test equals facility<=255 /\\ number<=65535 for every card number; a rejected call sends nothing and fails; an accepted call sends exactly the C01 request; passcode clamping. Tied by the recording driver with boundary pools (card numbers around 10^8, 2^24-1, facility 255/256 x number 65535/65536, PIN 999999/1000000, doors 0/1/4/5, IPv6 / IPv4-mapped / zoned listener addresses, nil/short IPs, missing segments, end<start).",
+    "level_note": "Trusted: as C01.",
+    "rule": "every operation x rounds, every second round from the edge pools, guard-bearing operations (PutCard, SetListener, SetAddress, SetDoorPasscodes, SetTimeProfile) drawn three times more often; id 0 in 1 of 8 calls. Non-trivial = id != 0.",
+    "trusted_base": API_TRUST,
+}
+
+DEV = {"API": {"engine": "api", "properties_file": "Properties/C12.v", "model_files": [], "env": {"TZ": "UTC"}}}
 NOT_YET = {}
